@@ -1,7 +1,7 @@
 """C06 - decoded views are faithful and supplied values read back unchanged."""
 from ..rules.quoters import PyQuoter, configurations, inner_quoters
 from ..rules.unquoters import QS_DELIMS, Unquoter
-from ..rules.kindrules import k2_k3, k4, make_kinds
+from ..rules.kindrules import k1, k2_k3, k4, make_kinds
 from ..rules import tables
 from .common import quoter_audits
 
@@ -37,6 +37,7 @@ def run(ctx):
     K = make_kinds(model)
     k4(ctx, K)
     k2_k3(ctx, K)
+    k1(ctx, K)      # supplied decoded text reaches its slot through exactly one quoter of that role
     # the write side: quoters that receive decoded text escape '%' (and the pair quoter '+ & = ;')
     for name, (cls, cfg) in cfgs.items():
         if cls == "_Quoter" and not cfg["requote"]:
